@@ -207,4 +207,32 @@ theorem mayChange_heap_growth {regs extra : List Nat} {h ext : Heap} {op : Op} {
   intro a ha
   rw [hold a (chain_lt (chainOf_ok.mp hr) a ha)]
 
+/-- **a resynchronised variable keeps its permission.** When the implementation legally copied
+    where the cons model shares, the driver re-allocates the variable (`r` → `r'`) inside the merged
+    region `blob`: all old cells and all new cells of the variable lie in `blob`.  Every later
+    operation that might change the old list might change the new one (unless the new value is the
+    empty list, which has no cell to change). -/
+theorem resync_keeps_permission {regs : List Nat} {h : Heap} {op : Op} {r r' : Ref} {as as' : List Nat} {blob : Nat}
+    (hr : chainOf h r = .ok as) (hr' : chainOf h r' = .ok as')
+    (hold : ∀ a ∈ as, regs[a]? = some blob) (hnew : ∀ a ∈ as', regs[a]? = some blob) (hne : as' ≠ [])
+    (hm : mayChange regs h op r = true) : mayChange regs h op r' = true := by
+  unfold mayChange at hm ⊢
+  simp only [hr] at hm
+  simp only [hr']
+  rw [List.any_eq_true] at hm ⊢
+  obtain ⟨a, ha, hp⟩ := hm
+  rw [hold a ha] at hp
+  cases as' with
+  | nil => exact absurd rfl hne
+  | cons b bs =>
+    refine ⟨b, by simp, ?_⟩
+    rw [hnew b (by simp)]
+    exact hp
+
+example :
+    let h : Heap := [⟨1, .nil⟩, ⟨1, .nil⟩, ⟨7, .nil⟩]
+    mayChange [5, 5, 5] h (.rplaca (.cell 2) 9) (.cell 0) = true
+      ∧ mayChange [5, 5, 5] h (.rplaca (.cell 2) 9) (.cell 1) = true := by
+  refine ⟨by rfl, by rfl⟩
+
 end SlipVerif.ListHeap
